@@ -18,6 +18,14 @@ CLAIMED["C11"] = ("Deductive proof of contracts on executeOne (budget counting: 
   "Partial: 'never counting past N+1' on the error-handler path and the two-run equality 'same state as without budget' are not claimed (see evidence.not_covered); Go stack exhaustion is outside any contract. Trusted: govc, go/ssa, solvers.",
   "contract-based deductive verification: weakest-precondition style VCs over go/ssa of /repo, discharged by z3 4.8.12 / z3 5.1.0 / cvc5 1.0",
   "DESIGN.md §3 C11")
+CLAIMED["C02"] = ("Deductive proof of functional contracts (success clause with frame of the untouched operands, error clauses with the PLRM error name) on the data operators under contract so far: pop dup exch count index add sub mul abs; integer overflow promotion stated in machine arithmetic.",
+  "Partial: the remaining operators (composite access, dictionary, comparison, registry operators) are not yet under functional contract; mul's general overflow clause is only claimed for the multiplicands -1, 0, 1 (see evidence.not_covered). Float arithmetic is treated as real arithmetic. Trusted: govc, go/ssa, solvers.",
+  "contract-based deductive verification: weakest-precondition style VCs over go/ssa of /repo, discharged by z3 4.8.12 / z3 5.1.0 / cvc5 1.0",
+  "DESIGN.md §3 C02")
+CLAIMED["C03"] = ("Deductive proof of control-flow contracts: loop-exit conditions of for and repeat (a loop operator leaves its loop only when the PLRM termination test holds or the body signalled exit), exit never escapes a loop operator, the tail element of a procedure is dispatched in deferred mode unless it was obtained by name lookup, if with a false condition executes nothing, Execute converts stray exit/stop.",
+  "Partial: what a body does is abstract (executeOne is used through its contract); iteration counts, forall operands, bind, name-lookup order and ifelse branch selection are not yet under contract (see evidence.not_covered). Trusted: govc, go/ssa, solvers.",
+  "contract-based deductive verification: weakest-precondition style VCs over go/ssa of /repo, discharged by z3 4.8.12 / z3 5.1.0 / cvc5 1.0",
+  "DESIGN.md §3 C03")
 NA = {}
 ALL = ["C%02d" % i for i in range(1, 21)]
 for p in ALL:
